@@ -312,6 +312,46 @@ func alphabet(spec *ukit.Spec) []call {
 }
 
 // observe: what a user can see of an instance - self-description (for scopes) and behaviour on a probe set.
+// objNode is one object schema inside a built schema, with the spec it was built from.
+type objNode struct {
+	spec *ukit.Spec
+	obj  *schema.ObjectSchema
+}
+
+// buildWithNodes builds a fresh instance and collects its object schemas (in build order, which is fixed).
+func buildWithNodes(spec *ukit.Spec) (schema.Type, []objNode) {
+	var nodes []objNode
+	ukit.OnBuild = func(n *ukit.Spec, t schema.Type) {
+		if o, ok := t.(*schema.ObjectSchema); ok {
+			nodes = append(nodes, objNode{n, o})
+		}
+	}
+	defer func() { ukit.OnBuild = nil }()
+	return ukit.Build(spec), nodes
+}
+
+// observeNodes: the parts of an instance are schemas in their own right - their defaults and their behaviour when
+// used directly belong to what "the schema is as it was" means.
+func observeNodes(nodes []objNode) string {
+	s := ""
+	for i, n := range nodes {
+		pan, _, _ := ukit.Call(func() { s += fmt.Sprintf("|obj%d %s defaults:%s", i, n.spec.ID, ukit.Snapshot(n.obj.GetDefaults())) })
+		if pan {
+			s += "defaults-panic"
+		}
+		for _, v := range append(ukit.ValidValues(n.spec, 2), map[string]any{}) {
+			pan, _, _ := ukit.Call(func() {
+				u, err := n.obj.Unserialize(ukit.DeepCopy(v))
+				s += ";" + outcome(u, err)
+			})
+			if pan {
+				s += ";panic"
+			}
+		}
+	}
+	return s
+}
+
 func observe(spec *ukit.Spec, sch schema.Type, probes []any) string {
 	s := ""
 	if sc, ok := sch.(*schema.ScopeSchema); ok {
@@ -347,9 +387,12 @@ func partHistory(spec *ukit.Spec, tier string, res *ux.Result, only *replay) {
 	for i := 0; i < len(raws) && len(probes) < 10; i += len(raws)/8 + 1 {
 		probes = append(probes, raws[i])
 	}
-	fresh := observe(spec, ukit.Build(spec), probes)
+	freshSch, freshNodes := buildWithNodes(spec)
+	fresh := observeNodes(freshNodes) + observe(spec, freshSch, probes) // the parts first: the probes themselves are calls
+	var lastNodes []objNode
 	build := func(hist []int) (schema.Type, bool) {
-		sch := ukit.Build(spec)
+		sch, nodes := buildWithNodes(spec)
+		lastNodes = nodes
 		for _, ci := range hist {
 			c := alpha[ci]
 			pan, _, _ := ukit.Call(func() { _, _ = apply(sch, c.Op, c.V()) })
@@ -378,7 +421,7 @@ func partHistory(spec *ukit.Spec, tier string, res *ux.Result, only *replay) {
 					continue // panics are C04's business
 				}
 				key := ukit.DeepDump(sch)
-				obs := observe(spec, sch, probes)
+				obs := observeNodes(lastNodes) + observe(spec, sch, probes)
 				if obs != fresh {
 					var names []string
 					for _, x := range hist {
@@ -471,7 +514,7 @@ func main() {
 			}
 			return res.Findings
 		},
-		Rule: "(a,b) every spec of U_2 that ranges over a map (enums, maps, objects, one-ofs, scopes, any, unit-bearing scalars) x its raw values (incl. maps whose distinct raw keys denote one key), their native forms and schema arguments (second instance, single-feature neighbours) x 4 operations, each executed under the default and under every single (thorough: pair of) non-default iteration order(s) of every range-over-map / MapKeys the operation performs (all permutations for <= 4 keys); argument snapshot compared before/after. (c) breadth-first search over call histories of depth <= 3 (thorough 4) over an alphabet of ~9 calls per spec on one instance; states = distinct deep dumps (incl. unexported caches) of the instance, transitions = calls replayed; every reached instance is compared with a fresh one on self-description and a probe set. non-trivial = cases in which more than one order / state was actually explored",
+		Rule: "(a,b) every spec of U_2 that ranges over a map (enums, maps, objects, one-ofs, scopes, any, unit-bearing scalars) x its raw values (incl. maps whose distinct raw keys denote one key), their native forms and schema arguments (second instance, single-feature neighbours) x 4 operations, each executed under the default and under every single (thorough: pair of) non-default iteration order(s) of every range-over-map / MapKeys the operation performs (all permutations for <= 4 keys); argument snapshot compared before/after. (c) breadth-first search over call histories of depth <= 3 (thorough 4) over an alphabet of ~9 calls per spec on one instance; states = distinct deep dumps (incl. unexported caches) of the instance, transitions = calls replayed; every reached instance is compared with a fresh one on self-description, a probe set, and the defaults and direct behaviour of every object schema inside it. non-trivial = cases in which more than one order / state was actually explored",
 		Assumptions: []string{
 			"error texts are not compared, only accept/reject and returned values",
 			"histories are rebuilt from a fresh instance per BFS node (live schema objects cannot be cloned)",
